@@ -347,6 +347,8 @@ HEADER_RE = re.compile(r"^(fn|const|static(?: mut)?) (.*) \{\s*$")
 def parse_mir(text):
     """-> dict name -> Body (function names exactly as printed in the definition header)."""
     bodies = {}
+    # the char literal of the quotation mark would open a string for the bracket / string aware splitters below
+    text = text.replace("const '\"'", "const '\\x22'")
     lines = text.split("\n")
     i, n = 0, len(lines)
     while i < n:
@@ -479,6 +481,7 @@ def _stmt_complete(s):
 
 
 def _strip_strings(s):
+    s = re.sub(r"'(\\.|[^'\\])'", "' '", s)      # char literals first: '"' must not open a string
     return re.sub(r'"(\\.|[^"\\])*"', '""', s)
 
 
